@@ -101,9 +101,11 @@ def get_oracle(line, c_out):
             how = "GET without Block2" if k == 0 else "block-wise GET with szx %d" % szxs[k - 1]
             return "%s delivers %d bytes %r.., the listing has %d bytes %r.." % (how, len(g), g[:40], len(want), want[:40])
     bl = blocks_of(c_out)
-    exp = [max(1, -(-len(want) // 1024))] + [max(1, -(-len(want) // (16 << z))) for z in szxs]
-    if not (mode & 1):
-        # block mode 0: a GET without Block2 is answered in one PDU whenever the listing fits
+    cap = 64 if mode == 3 else 1024       # mode 3: libcoap block mode with max block size 64
+    exp = [max(1, -(-len(want) // cap))] + [max(1, -(-len(want) // min(cap, 16 << z))) for z in szxs]
+    if mode != 1:
+        # block mode 0, or a capped block size: a GET without Block2 is answered in one PDU
+        # whenever the listing fits - only the block-wise GETs have a prescribed block count
         bl, exp = bl[1:], exp[1:]
     if bl != exp:
         return "number of blocks %s, expected %s" % (bl, exp)
@@ -314,7 +316,7 @@ def gen_cases(run, r):
             if q == b"":
                 q = None      # coap_pdu_parse rejects an empty Uri-Query option (C03's limit table)
             L = len(gen_link.py_listing(ops, q))
-            mode = 1 if k % 2 == 0 else 0
+            mode = [1, 0, 3, 0, 1][k % 5]
             if k and q is not None and r.random() < 0.5:
                 # a filter that survives coap_get_query unchanged (F20c is exercised by the others)
                 q = bytes(c for c in q if c in UNESC) or None
@@ -391,14 +393,17 @@ def main(run):
     san_lines = []
     if True:
         for ln, k in zip(lines, kinds):
-            if k in ("const", "link") or ln.startswith("get "):
+            if k in ("const", "link"):
+                continue
+            if ln.startswith("get "):
+                san_lines.append(ln)      # the handler (decoding, probe, print, block hand-off) under ASan
                 continue
             cmd, lk, ops, q, wins = parse_case(ln)
             if q is None:
                 continue
             san_lines.append(gen_link.case_line("wk", ops, q, [(0, 7), (3, 0), (1, 4096)]))
         if run.tier == "quick":
-            san_lines = san_lines[:len(corpus) + 400]
+            san_lines = san_lines[:len(corpus) + 500]
         asan = vlib.build_driver("h_link", ["h_link.c"], variant="asan")
         env = {"ASAN_OPTIONS": "detect_leaks=0:abort_on_error=0:exitcode=99",
                "UBSAN_OPTIONS": "halt_on_error=1:exitcode=98"}
